@@ -32,8 +32,15 @@ fn guarded<T>(f: impl FnOnce() -> Result<T, String>) -> Result<T, String> {
     }
 }
 
+thread_local! {
+    // One parser per worker thread, like one per `fml` process. Constructing a parser compiles the
+    // lexer's regexes, which is slow and leaves allocations behind (≈ 100 KB per construction with
+    // the pinned regex / thread_local versions): a worker that built one per case grew by 100 MB/s.
+    static PARSER: TopLevelParser = TopLevelParser::new();
+}
+
 pub fn parse(src: &str) -> Result<AST, String> {
-    guarded(|| TopLevelParser::new().parse(src).map_err(|e| format!("parse error: {:?}", e)))
+    guarded(|| PARSER.with(|p| p.parse(src).map_err(|e| format!("parse error: {:?}", e))))
 }
 
 pub fn compile(ast: &AST) -> Result<Program, String> {
